@@ -74,3 +74,57 @@ Theorem C02_empty_query : forall HO (data stream : bytes HO) (bs : N) (root : ha
   (exists st, rd_run HO (rd_new HO root [] t stream) = ([], Finished, st) /\ Fsm.r_enc HO st = stream).
 Proof. exact e2e_empty_query. Qed.
 Print Assumptions C02_empty_query.
+
+(* ======== Final composition (proofs in Proofs/FinalStore.v, Proofs/FinalEnc.v): the full round trip ========
+   created_store HO data bs ob (Props/C03.v: C03_created_store_def; every store returned by a creation entry
+   point satisfies it: C03_created_by_store).  The stored_ok premise of C02_enc_is_spec_* is discharged by
+   C03_created_store_intact: the parents of the encoder's plan are persisted nodes of the Shape
+   (C04_enc_nodes_persisted). *)
+From BaoV Require Import Model.Sync Proofs.FinalStore Proofs.FinalEnc.
+
+(* encode on a created store, decode with the store's root and tree: the items are the honest ones, the
+   decoder finishes and leaves exactly what follows the encoding; the empty query encodes to nothing
+   (and decodes nothing: C02_empty_query) *)
+Theorem C02_roundtrip_full_sync : forall (HO : hops), hash_ok HO ->
+  forall (data : bytes HO) (bs : N), (blen HO data <= 2 ^ 63)%N -> (bs <= 10)%N ->
+  forall ob : outboard HO, created_store HO data bs ob ->
+  forall q : ranges, wf_ranges q = true ->
+  exists enc, encode_ranges_validated HO data ob q = (Ok tt, enc) /\ enc = flat HO (honest HO data bs q) /\
+    (q = [] -> enc = []) /\
+    (q <> [] -> forall rest : bytes HO, exists st,
+       dec_run HO (dec_new HO (ob_root ob) (ob_tree ob) (enc ++ rest) q) = (honest HO data bs q, Finished, st) /\
+       d_enc HO st = rest).
+Proof. exact c02_roundtrip_full_sync. Qed.
+Print Assumptions C02_roundtrip_full_sync.
+
+Theorem C02_roundtrip_full_fsm : forall (HO : hops), hash_ok HO ->
+  forall (data : bytes HO) (bs : N), (blen HO data <= 2 ^ 63)%N -> (bs <= 10)%N ->
+  forall ob : outboard HO, created_store HO data bs ob ->
+  forall q : ranges, wf_ranges q = true ->
+  exists enc, encode_ranges_validated_fsm HO data ob q = (Ok tt, enc) /\ enc = flat HO (honest HO data bs q) /\
+    (q = [] -> enc = []) /\
+    (q <> [] -> forall rest : bytes HO, exists st,
+       rd_run HO (rd_new HO (ob_root ob) q (ob_tree ob) (enc ++ rest)) = (honest HO data bs q, Finished, st) /\
+       Fsm.r_enc HO st = rest /\ rd_finish HO st = rest).
+Proof. exact c02_roundtrip_full_fsm. Qed.
+Print Assumptions C02_roundtrip_full_fsm.
+
+(* encode on a created store (sync and fsm give the same bytes), decode_ranges (sync and fsm) into any target
+   and any sink store carrying the blob's root and tree: all honest items are applied (apply_items, Props/C01.v) *)
+Theorem C02_roundtrip_full_decode_ranges : forall (HO : hops), hash_ok HO ->
+  forall (data : bytes HO) (bs : N), (blen HO data <= 2 ^ 63)%N -> (bs <= 10)%N ->
+  forall ob : outboard HO, created_store HO data bs ob ->
+  forall q : ranges, wf_ranges q = true -> q <> [] ->
+  forall (rest target : bytes HO) (sink : outboard HO),
+  ob_root sink = root_hash HO data -> ob_tree sink = mkTree (blen HO data) bs ->
+  forall enc1 enc2,
+  encode_ranges_validated HO data ob q = (Ok tt, enc1) ->
+  encode_ranges_validated_fsm HO data ob q = (Ok tt, enc2) ->
+  enc1 = enc2 /\
+  let a := apply_items HO (honest HO data bs q) target sink in
+  (exists st', decode_ranges HO (enc1 ++ rest) q target sink =
+               (ranges_result (a_res HO a) Finished, a_target HO a, a_ob HO a, st')) /\
+  (exists st', decode_ranges_fsm HO (enc1 ++ rest) q target sink =
+               (ranges_result (a_res HO a) Finished, a_target HO a, a_ob HO a, st')).
+Proof. exact c02_roundtrip_full_decode_ranges. Qed.
+Print Assumptions C02_roundtrip_full_decode_ranges.
